@@ -313,7 +313,7 @@ def same_obs(exp, got, what, rtol=1e-12, scale=0.0):
     import pyerrors as pe
     require(isinstance(got, pe.Obs), '%s: entry is %s, expected an Obs' % (what, type(got).__name__))
     require(not isinstance(got.value, complex), '%s: complex central value' % what, got.value)
-    sc = max(_mag(exp), scale)
+    sc = max(_mag(exp), scale) + 1e-290 / 1e-13      # (numbers in the denormal range carry no relative precision: absolute floor 1e-290)
     require(abs(exp.value - got.value) <= rtol * max(abs(exp.value), abs(got.value)) + 1e-13 * sc,
             '%s: central value %r, Obs-level operation gives %r' % (what, got.value, exp.value))
     require(sorted(exp.names) == sorted(got.names), '%s: names %r, expected %r' % (what, got.names, exp.names))
